@@ -33,7 +33,7 @@ COMPONENTS = {
     "real": ["pulser sampling", "PulserData", "MPSBackend.run/_run/resume/_run_from_sequence_data", "MPSBackendImpl/NoisyMPSBackendImpl/DMRGBackendImpl incl. __getstate__/__setstate__/save_simulation", "pickle", "all tensor numerics", "kernel file system (tmpfs)"],
     "stubbed": ["wall clock (SimClock)", "uuid1/uuid4 (counter)", "RNG seeding and, for noisy runs, RNG-state restore at resume (coupling)", "minimize_bandwidth (scheduler-chosen permutation)", "process death (directory snapshot + fresh incarnation)"],
 }
-PROBES = ["resume_mid_timestep", "resume_noisy_with_jump_after", "resume_dmrg", "resume_with_reordering", "resume_with_dark_atoms", "second_crash", "third_crash", "resume_from_final_cleanup_state", "clock_jump_in_resumed", "resume_str_arg", "resume_path_arg"]
+PROBES = ["resume_with_active_root_search", "resume_mid_timestep", "resume_noisy_with_jump_after", "resume_dmrg", "resume_with_reordering", "resume_with_dark_atoms", "second_crash", "third_crash", "resume_from_final_cleanup_state", "clock_jump_in_resumed", "resume_str_arg", "resume_path_arg"]
 ASSUMPTIONS = [
     "noisy runs: 'same distribution' is checked by coupling - the resumed incarnation gets the RNG state the snapshot was taken with, so a complete snapshot must reproduce the trajectory exactly",
     "in-process restart (module globals survive); fresh-interpreter restarts are sampled by the selftest",
@@ -165,6 +165,8 @@ def _explore(H: C.History, tape: Tape, tier: str, world: World, case: dict, ref:
         H.probe("resume_path_arg" if as_path else "resume_str_arg")
         if stage == "final":
             H.probe("resume_from_final_cleanup_state")
+        if w["pcall"] in getattr(fw, "finder_calls", ()):
+            H.probe("resume_with_active_root_search")
         if nontrivial:
             H.probe("resume_mid_timestep")
             if case["solver"] == "dmrg":
